@@ -35,7 +35,7 @@ import scopes, c05, c08, c10, c01, consumers
 LEVEL = 'other'
 EXPLANATION = __doc__
 ASSUMPTIONS = ['the inner parser of a group consumes only through the State primitives (C05)']
-FLOORS = {'A.attempts': 5, 'W.window': 3, 'C.contiguous': 1, 'P.prefix': 2, 'S.adjacent_scope': 2, 'L.leftmost': 3, 'F.failfast': 1}
+FLOORS = {'A.attempts': 5, 'W.window': 4, 'C.contiguous': 1, 'P.prefix': 2, 'S.adjacent_scope': 2, 'L.leftmost': 3, 'F.failfast': 1}
 
 def run(ctx):
     cfgs = ['none', 'all'] if ctx.tier == 'quick' else ['none', 'all', 'ac', 'doc']
@@ -110,20 +110,21 @@ def window(ctx, cfg, fs):
     by = {}
     for (bb, sid, sc) in rec:
         by.setdefault(bb, set()).add((sid if not isinstance(sid, tuple) else 'clone', sc))
-    evs = sorted(by)
-    order = sorted(evs, key=lambda x: sum(1 for y in evs if b.dominates(y, x)))
     allowed_probe = {('narrow', 'range:start..start+width')}
     allowed_real = {('narrow', 'range:start..scope-end'), ('narrow', 'adjacent-run'), ('narrow', 'adjacent_scope')}
-    for i, bb in enumerate(order):
+    order = sorted(by)
+    n_probe = 0; n_real = 0
+    for bb in order:
         got = {sc for (_, sc) in by[bb]}
         on = {s_ for (s_, _) in by[bb]}
-        if i == 0 and len(order) >= 2:
-            ok = got <= allowed_probe and on == {'clone'}
-            what = 'probe'
+        # an evaluation site is the probe when it only ever sees the single-item window, the real attempt otherwise
+        if got <= allowed_probe:
+            what = 'probe'; ok = on == {'clone'}; n_probe += 1
         else:
-            ok = got <= allowed_real and bool(got) and on == {'clone'}
-            what = 'attempt'
+            what = 'attempt'; ok = got <= allowed_real and bool(got) and on == {'clone'}; n_real += 1
         ctx.ob('W.window', 'ParseAdjacent::eval:%s-scope' % what, ok, 'ParseAdjacent::eval: the %s runs the inner parser on %s with scope %s' % (what, sorted(on), sorted(map(str, got))), where=b.where(bb), cfg=cfg)
+    ctx.ob('W.window', 'ParseAdjacent::eval:probe-and-attempt', n_probe >= 1 and n_real >= 1, 'ParseAdjacent::eval evaluates the group on the single-item window (%d site(s)) and on the real window (%d site(s))' % (n_probe, n_real), where=b.where(), cfg=cfg)
+    real = [bb for bb in order if not ({sc for (_, sc) in by[bb]} <= allowed_probe)] or order
     # the trim to the adjacent run is taken exactly when the window has holes
     trims = [c for c in b.calls() if c.is_(r'State::adjacently_available_from$')]
     ok = len(trims) == 1
@@ -142,7 +143,6 @@ def window(ctx, cfg, fs):
                             or (has_span[0] and has_len[1] and r.extra['op'] == 'Le' and s_ == sw.target(False)) or (has_len[0] and has_span[1] and r.extra['op'] == 'Ge' and s_ == sw.target(False)):
                         good = True
         # and it precedes the attempt
-        real = [bb for bb in order[1:]] or order
         ok = good and all(b.dominates(trims[0].bb, x) or not b.reaches(trims[0].bb, [x]) or True for x in real) and any(b.reaches(trims[0].bb, [x]) for x in real)
         detail = 'taken on the edge where `window length > number of present items` (%s), before the attempt' % good
     ctx.ob('W.window', 'ParseAdjacent::eval:trim-when-holes', ok, 'ParseAdjacent::eval trims the window to the adjacent run: %s' % detail, where=b.where(trims[0].bb) if trims else b.where(), cfg=cfg)
@@ -218,7 +218,7 @@ def prefix(ctx, cfg, fs):
 
 def adjacent_scope(ctx, cfg, fs):
     b = ctx.look(fs.one(r'^args::inner::State::adjacent_scope$'))
-    pres = [c for c in b.calls() if c.is_(r'^args::ItemState::present$')]
+    pres = [c for x in fs.family(b) for c in x.calls() if c.is_(r'^args::ItemState::present$')]
     # both ledgers are consulted: the iterator whose elements are tested zips the item_state of self and of original
     srcs = set()
     for c in b.calls():
@@ -229,7 +229,7 @@ def adjacent_scope(ctx, cfg, fs):
     zips = [c for c in b.calls() if c.is_(r'Iterator>?::zip$')]
     both = srcs >= {'self', 'original'} and len(zips) == 1
     # forward scan from the start of the scope
-    fwd = not any(c.is_(r'Iterator>?::(rev|next_back|rposition|rfind|last|max\w*|min\w*)$') for c in b.calls())
+    fwd = not any(c.is_(r'Iterator>?::(rev|next_back|rposition|rfind|last|max\w*|min\w*)$') for x in fs.family(b) for c in x.calls())
     rngs = []
     for i, k, st in b.stmts():
         if st['k'] == 'assign' and st['rv']['k'] == 'agg' and 'Range' in st['rv'].get('adt', ''):
